@@ -2,6 +2,7 @@ package rules
 
 import (
 	"go/token"
+	"go/types"
 	"strings"
 
 	"golang.org/x/tools/go/ssa"
@@ -356,6 +357,82 @@ func ruleHiddenSubtrees(c *core.Ctx, rule string) {
 		}
 	}
 	c.Floor(rule, "examinations of build entries in the validator", nSites, 4)
+	// (3) ... and what is not looked at is reported: from either outcome of a test of the record, the next entry
+	// (the next turn of the loop, or a success return) is reached only through an examination or through a wound
+	// being sent. An entry below a broken directory that is merely passed over is never healed: a nested empty
+	// directory does not "come back with what is in it".
+	sendsWound := func(f *ssa.Function) bool {
+		found := false
+		core.Instrs(f, func(in ssa.Instruction) {
+			if isWoundSend(in) {
+				found = true
+			}
+		})
+		return found
+	}
+	isReport := func(in ssa.Instruction) bool {
+		if isWoundSend(in) {
+			return true
+		}
+		if cl, ok := in.(*ssa.Call); ok {
+			if f := calledFunc(cl); f != nil && f.Blocks != nil && strings.HasSuffix(core.PkgPathOf(f), "/pwr") && sendsWound(f) {
+				return true
+			}
+		}
+		return false
+	}
+	nTests := 0
+	for _, top := range []*ssa.Function{V, W} {
+		for _, f := range core.WithAnons(top) {
+			succ := map[ssa.Instruction]bool{}
+			for _, rs := range successReturns(f) {
+				succ[rs.Ret] = true
+			}
+			// only where entries are dealt with: a function that neither examines nor reports anything (the helper
+			// that answers "is this path below a broken directory?") decides nothing about an entry
+			deals := false
+			core.Instrs(f, func(in ssa.Instruction) {
+				if _, isEx := isExam(in); isEx || isReport(in) {
+					deals = true
+				}
+			})
+			if !deals {
+				continue
+			}
+			core.Instrs(f, func(in ssa.Instruction) {
+				ifi, ok := in.(*ssa.If)
+				if !ok || !dep(ifi.Cond, 0, map[ssa.Value]bool{}) || len(ifi.Block().Succs) != 2 {
+					return
+				}
+				nTests++
+				for side := 0; side < 2; side++ {
+					keep := ifi.Block().Succs[side]
+					skip := func(b, s2 *ssa.BasicBlock) bool { return b == ifi.Block() && s2 != keep }
+					to := func(x ssa.Instruction) bool {
+						if _, isNext := x.(*ssa.Next); isNext {
+							return true
+						}
+						return x == ssa.Instruction(ifi) || succ[x]
+					}
+					avoid := func(x ssa.Instruction) bool {
+						if _, isEx := isExam(x); isEx {
+							return true
+						}
+						return isReport(x)
+					}
+					p := core.FindPathSkipping(f, ifi, to, avoid, skip)
+					what := "outcome true"
+					if side == 1 {
+						what = "outcome false"
+					}
+					c.Check(p == nil, rule, core.FnName(f), "after a test of the broken-directory record ("+what+") the entry is examined or reported", core.InstrPos(ifi),
+						"the next entry is reached only through an examination or a wound being sent",
+						"an entry can be passed over without being looked at and without a wound: what lies below a broken directory is then never reported - an empty directory nested below a missing or replaced one is not made again by the healer, healing returns without error and the tree does not validate").Path = c.P.PathStrings(p)
+				}
+			})
+		}
+	}
+	c.Floor(rule, "tests of the broken-directory record", nTests, 2)
 }
 
 // dependsOnEntryPath: the value is computed from the Path field of a container entry.
@@ -407,6 +484,21 @@ func dependsOnEntryPath(v ssa.Value, depth int, seen map[ssa.Value]bool) bool {
 						}
 					}
 				}
+			}
+		}
+	}
+	return false
+}
+
+// isWoundSend: a wound goes out on a channel here - a plain send, or a send case of a select.
+func isWoundSend(in ssa.Instruction) bool {
+	switch x := in.(type) {
+	case *ssa.Send:
+		return core.TypeName(x.X.Type()) == "pwr.Wound"
+	case *ssa.Select:
+		for _, st := range x.States {
+			if st.Dir == types.SendOnly && st.Send != nil && core.TypeName(st.Send.Type()) == "pwr.Wound" {
+				return true
 			}
 		}
 	}
